@@ -1,26 +1,33 @@
 #!/bin/sh
-# usage: tools/run_seeds.sh [Cxx ...]   applies every seeded/<prop>/<v>/patch.diff to /repo in turn, runs ./check <prop>
-# (plus the extra properties listed in seeded/<prop>/<v>/also), prints one line per seed, restores /repo each time.
-# Never run concurrently with another check: it edits the working tree of /repo.
+# usage: tools/run_seeds.sh [Cxx ...]
+# Applies every seeded/<prop>/<v>/patch.diff to a scratch worktree of /repo (never to /repo itself), runs the property's
+# quick check against it (PYVC_REPO), with evidence / replay files redirected (PYVC_OUT), and prints one line per seed.
 cd /verif
+WT=${SEED_WT:-/tmp/pyvc_seed_wt}
+OUTD=${SEED_OUT:-/tmp/pyvc_seed_out}
+git -C /repo worktree remove --force $WT 2>/dev/null
+rm -rf $WT $OUTD; mkdir -p $OUTD
+git -C /repo worktree add -q --detach $WT HEAD || exit 3
 props="$@"; [ -z "$props" ] && props=$(ls seeded | grep '^C')
 for p in $props; do
   for v in $(ls seeded/$p); do
     d=seeded/$p/$v
     [ -f $d/patch.diff ] || continue
-    git -C /repo checkout -q -- . ; git -C /repo reset -q HEAD -- .
-    if ! git -C /repo apply $d/patch.diff 2>/dev/null; then echo "SEED $p/$v patch-does-not-apply"; continue; fi
+    git -C $WT checkout -q -- . ; git -C $WT clean -fdq
+    if ! git -C $WT apply $d/patch.diff 2>/dev/null; then echo "SEED $p/$v patch-does-not-apply"; continue; fi
     also=""; [ -f $d/also ] && also=$(cat $d/also)
     res=""
     for q in $p $also; do
-      out=$(./check $q --tier quick 2>&1 | tail -3)
+      out=$(PYVC_REPO=$WT PYVC_OUT=$OUTD ./check $q --tier quick 2>&1 | tail -40)
       line=$(echo "$out" | tail -1)
       ex=$(echo "$line" | sed 's/.*exit=//')
-      viol=$(echo "$out" | grep -c VIOLATION)
-      res="$res $q:exit=$ex"
+      nv=$(echo "$out" | grep -c '^VIOLATION')
+      nr=$(echo "$out" | grep '^VIOLATION' | grep -vc 'no-failing-input-found')
+      und=$(echo "$out" | grep -m1 '^UNDECIDED' | cut -c1-140)
+      res="$res | $q exit=$ex violations=$nv replayed=$nr $und"
     done
     echo "SEED $p/$v$res"
-    git -C /repo checkout -q -- . ; git -C /repo reset -q HEAD -- .
   done
 done
-git -C /repo status --short | head -3
+git -C /repo worktree remove --force $WT
+rm -rf $WT
